@@ -85,8 +85,19 @@ def funcs(rel, names, stubbed=()):
         return res
     for name in names:
         f = vf.c_function(src, name)
+        if not f or "{" not in f:
+            # moved into another file of the same directory: the file that defines it now (its static helpers come from there)
+            d = os.path.dirname(os.path.join(vf.REPO, rel))
+            for fn in sorted(os.listdir(d)):
+                q = os.path.join(d, fn)
+                if fn.endswith(".c") and q != os.path.join(vf.REPO, rel):
+                    cand = mobile_alloc.strip_comments(open(q, errors="replace").read())
+                    f2 = vf.c_function(cand, name)
+                    if f2 and "{" in f2:
+                        src, f = cand, f2
+                        break
         if not f:
-            raise vf.HarnessError("function %s not found in %s" % (name, rel))
+            raise vf.HarnessError("function %s not found in %s nor in another file of its directory" % (name, rel))
         for n, h in helpers(f):
             out += "\n/* --- %s: %s (helper) --- */\n%s\n" % (rel, n, h)
         out += "\n/* --- %s: %s --- */\n%s\n" % (rel, name, f.strip())
